@@ -56,6 +56,113 @@ impl PMMRable for VarElem {
 	}
 }
 
+/// Oversize probe element: a 4-byte big-endian length, then that many bytes (`elmt_size() = None`).
+#[derive(Clone, Debug, PartialEq, Eq)]
+pub struct BigElem(pub Vec<u8>);
+impl DefaultHashable for BigElem {}
+impl Writeable for BigElem {
+	fn write<W: Writer>(&self, writer: &mut W) -> Result<(), ser::Error> {
+		writer.write_u32(self.0.len() as u32)?;
+		writer.write_fixed_bytes(&self.0)
+	}
+}
+impl Readable for BigElem {
+	fn read<R: Reader>(reader: &mut R) -> Result<BigElem, ser::Error> {
+		let n = reader.read_u32()?;
+		Ok(BigElem(reader.read_fixed_bytes(n as usize)?))
+	}
+}
+impl PMMRable for BigElem {
+	type E = Self;
+	fn as_elmt(&self) -> Self::E {
+		self.clone()
+	}
+	fn elmt_size() -> Option<u16> {
+		None
+	}
+}
+
+/// Model tie only: elements whose encoding has 65535 / 65536 / 65537 / 70000 / 131072+4 bytes in a
+/// variable-size data file.  `SizeEntry.size` is `bytes.len() as u16`: from 65536 bytes on the entry
+/// holds the length modulo 2^16, `append` still answers Ok, the element cannot be read back and the
+/// elements after it are addressed from a wrong offset; after reopen `rebuild_size_file` (its sum
+/// differs from the file length) wraps the same way.  No grin type is that large.
+fn oversize_probe(out: &mut Out, rng: &mut Rng) {
+	let work = std::env::var("VERIF_WORK").expect("VERIF_WORK not set");
+	let dir = PathBuf::from(work).join("oversize");
+	let mut lost = 0u64;
+	let mut rounds = 0u64;
+	for enc_len in [65_535usize, 65_536, 65_537, 70_000, 131_076] {
+		for small_first in [true, false] {
+			rounds += 1;
+			let _ = std::fs::remove_dir_all(&dir);
+			std::fs::create_dir_all(&dir).unwrap();
+			let mut be: PMMRBackend<BigElem> = PMMRBackend::new(&dir, true, ProtocolVersion(1), None).unwrap();
+			out.line("store new big", "ok");
+			let mut size = 0u64;
+			let mut lens: Vec<usize> = vec![];
+			if small_first {
+				lens.push(rng.range(1, 40) as usize);
+			}
+			lens.push(enc_len - 4);
+			lens.push(rng.range(1, 40) as usize);
+			lens.push(rng.range(1, 40) as usize);
+			let mut push = |be: &mut PMMRBackend<BigElem>, size: &mut u64, len: usize, byte: u8, out: &mut Out| {
+				let e = BigElem(vec![byte; len]);
+				let res = catch(AssertUnwindSafe(|| {
+					let mut p = PMMR::at(be, *size);
+					p.push(&e).map(|_| p.size)
+				}));
+				let rhs = match res {
+					Ok(Ok(sz)) => {
+						*size = sz;
+						sz.to_string()
+					}
+					Ok(Err(_)) => "err".to_string(),
+					Err(_) => "panic".to_string(),
+				};
+				out.line(&format!("store xpushrun {} {}", len, byte), &rhs);
+			};
+			for (i, l) in lens.iter().enumerate() {
+				push(&mut be, &mut size, *l, 0x30 + i as u8, out);
+			}
+			let mut read_all = |be: &mut PMMRBackend<BigElem>, size: u64, out: &mut Out, lost: &mut u64| {
+				for i in 0..pmmr::n_leaves(size) {
+					let p = pmmr::insertion_to_pmmr_index(i);
+					let d = catch(AssertUnwindSafe(|| PMMR::at(be, size).get_data(p)));
+					let rhs = match d {
+						Ok(Some(e)) => {
+							let mut enc = (e.0.len() as u32).to_be_bytes().to_vec();
+							enc.extend_from_slice(&e.0);
+							format!("{}:{}", enc.len(), hex(blake(&enc).as_bytes()))
+						}
+						Ok(None) => {
+							*lost += 1;
+							"none".to_string()
+						}
+						Err(_) => "panic".to_string(),
+					};
+					out.line(&format!("store xdatalen {}", p), &rhs);
+				}
+			};
+			read_all(&mut be, size, out, &mut lost);
+			out.line("store sync", if be.sync().is_ok() { "ok" } else { "err" });
+			read_all(&mut be, size, out, &mut lost);
+			drop(be);
+			let mut be: PMMRBackend<BigElem> = PMMRBackend::new(&dir, true, ProtocolVersion(1), None).unwrap();
+			out.line("store reopen", "ok");
+			read_all(&mut be, size, out, &mut lost);
+			push(&mut be, &mut size, 7, 0x39, out);
+			out.line("store sync", if be.sync().is_ok() { "ok" } else { "err" });
+			read_all(&mut be, size, out, &mut lost);
+		}
+	}
+	out.raw(&format!(
+		"#STAT [oversize] rounds={} (encodings of 65535 / 65536 / 65537 / 70000 / 131076 bytes between small elements; model tie only) reads that returned None although the leaf is unspent={} (the u16 size cast: none below 65536 bytes)",
+		rounds, lost
+	));
+}
+
 /// Fixed-size element of 683 bytes (the record size of the rangeproof MMR).
 #[derive(Clone, Debug, PartialEq, Eq)]
 pub struct RpElem(pub Vec<u8>);
@@ -177,6 +284,13 @@ struct Book<T: PMMRable> {
 struct Stats {
 	/// run `varopen`: reopens that found a replaced size file
 	size_files_replaced: u64,
+	/// run `siblings`
+	sibling_histories: u64,
+	sibling_left_protected: u64,
+	sibling_right_protected: u64,
+	sibling_lone_root_next_to_protected: u64,
+	last_leaf_histories: u64,
+	last_leaf_is_lone_peak: u64,
 	ops: BTreeMap<String, u64>,
 	patterns: BTreeMap<String, u64>,
 	compactions: u64,
@@ -1698,6 +1812,128 @@ impl<'a, T: Kind> Run<'a, T> {
 	}
 
 
+	// ---- sibling pairs around a compaction boundary; the boundary's last leaf as a lone peak ---
+
+	/// Leaf `t` and its sibling `s = t ^ 1` (both inside the boundary): the SIBLING is spent by the
+	/// boundary block, `t` by a later block; `check_compact` at the boundary with the spend of `t`
+	/// inside the horizon - `s` becomes a pruned root of a single leaf right next to the protected
+	/// `t` (for a LEFT `t` the position after it); a later unit of work rewinds to before the spend of
+	/// `t`: the leaf must be unspent again with its data, hash and proof, also after the rewind is
+	/// committed (alone, or with appends) and the store reopened.  Then `t` is spent for good and the
+	/// pair rolled up.
+	fn sibling_history(&mut self, l: u64, t: u64, mode: u64, stepwise: bool, alone: bool) {
+		let leaf = |i: u64| pmmr::insertion_to_pmmr_index(i);
+		let s = t ^ 1;
+		assert!(t < l && s < l);
+		self.fresh();
+		self.st.sibling_histories += 1;
+		if t % 2 == 0 {
+			self.st.sibling_left_protected += 1;
+		} else {
+			self.st.sibling_right_protected += 1;
+		}
+		self.plain_unit(l, &[], true);
+		// the boundary block spends the sibling
+		self.plain_unit(if mode == 1 { 0 } else { 1 }, &[leaf(s)], true);
+		let b1 = self.bk.chain.len() - 1;
+		self.plain_unit(1 + l % 2, &[leaf(t)], true);
+		let b_spend = self.bk.chain.len() - 1;
+		self.plain_unit(1, &[], true);
+		self.compact_at(b1);
+		self.observe(true, true);
+		self.observe_prune_file();
+		if let Ok(pl) = PruneList::open(self.dir.join("pmmr_prun.bin")) {
+			if pl.is_pruned_root(leaf(s)) {
+				self.st.sibling_lone_root_next_to_protected += 1;
+			}
+		}
+		if l % 3 == 0 {
+			self.reopen();
+			self.observe(true, true);
+		}
+		self.rewind_unit_start(b_spend - 1, stepwise);
+		self.observe(false, true);
+		if alone {
+			self.sync();
+		} else {
+			self.push();
+			self.push();
+			self.observe(false, false);
+			self.sync();
+		}
+		self.observe(true, true);
+		self.reopen();
+		self.observe(true, true);
+		self.plain_unit(1, &[leaf(t)], true);
+		let head = self.bk.chain.len() - 1;
+		self.compact_at(head);
+		self.observe(true, true);
+		self.observe_prune_file();
+		self.reopen();
+		self.observe(true, true);
+		self.backend = None;
+	}
+
+	/// Exactly ONE block rewound whose spends contain the last leaf of the previous boundary - for an
+	/// odd leaf count a lone single-leaf peak, 1-based position == the boundary size, the largest
+	/// position a `rewind_rm_pos` can hold: it must be unspent again; the rewind committed (and the
+	/// store reopened) or discarded.
+	fn last_leaf_history(&mut self, l: u64, commit: bool) {
+		let leaf = |i: u64| pmmr::insertion_to_pmmr_index(i);
+		self.fresh();
+		self.st.last_leaf_histories += 1;
+		let first = (l + 1) / 2;
+		self.plain_unit(first, &[], true);
+		if first < l {
+			self.plain_unit(l - first, &[], true);
+		}
+		let b1 = self.bk.chain.len() - 1;
+		let last = leaf(l - 1);
+		if last + 1 == self.bk.chain[b1].size {
+			self.st.last_leaf_is_lone_peak += 1;
+		}
+		self.plain_unit(1 + l % 2, &[last], true);
+		let saved = self.bk.clone();
+		self.rewind_unit_start(b1, false);
+		self.observe(false, true);
+		if commit {
+			self.sync();
+			self.observe(true, true);
+			self.reopen();
+			self.observe(true, true);
+		} else {
+			self.discard(saved);
+			self.observe(true, true);
+		}
+		self.plain_unit(1, &[], true);
+		self.backend = None;
+	}
+
+	fn sibling_family(&mut self, max_l: u64, max_last: u64) {
+		for l in 2..=max_l {
+			let last_pair = if l % 2 == 0 { l - 2 } else { l - 3 };
+			let mut pairs = vec![0u64, (l / 4) * 2, last_pair];
+			pairs.sort();
+			pairs.dedup();
+			for (pi, p) in pairs.iter().enumerate() {
+				if p + 1 >= l {
+					continue;
+				}
+				for t in [*p, *p + 1] {
+					for mode in 0..2 {
+						let stepwise = (l + pi as u64 + mode) % 2 == 0;
+						let alone = (l + t + mode) % 2 == 0;
+						self.sibling_history(l, t, mode, stepwise, alone);
+					}
+				}
+			}
+		}
+		for l in 1..=max_last {
+			self.last_leaf_history(l, true);
+			self.last_leaf_history(l, false);
+		}
+	}
+
 	// ---- bulk batches: large un-synced appends after a rewind, rolled back -------------------
 
 	/// bytes of every file of the backend directory
@@ -2848,6 +3084,25 @@ fn run_cutoff<T: Kind>(out: &mut Out, rng: &mut Rng, max_l: u64) {
 	print_deep_stats(out, &format!("cutoff-{}", T::NAME), &st);
 }
 
+/// `store siblings`: the deterministic families around sibling pairs at a compaction boundary and
+/// around the boundary's last leaf, both element kinds
+fn run_siblings<T: Kind>(out: &mut Out, rng: &mut Rng, max_l: u64, max_last: u64) {
+	let work = std::env::var("VERIF_WORK").expect("VERIF_WORK not set");
+	let dir = PathBuf::from(work).join(format!("siblings_{}", T::NAME));
+	let mut st = Stats::default();
+	{
+		let mut run: Run<'_, T> = new_run(out, rng, &mut st, dir);
+		run.sibling_family(max_l, max_last);
+	}
+	print_stats(out, &format!("siblings-{}", T::NAME), &st);
+	out.raw(&format!(
+		"#STAT [siblings-{}] sibling family: histories={} (leaf counts 2..={}, first / middle / last pair; protected leaf is the LEFT one: {}, the RIGHT one: {}); after the compaction the spent sibling is a single-leaf pruned root next to the protected leaf in {} of them; each: sibling spent by the boundary block, the leaf by a later block, check_compact at the boundary, rewind across the leaf's spend (single step / block by block), committed alone or with appends, reopen, final spend + compaction + reopen. last-leaf family: histories={} (leaf counts 1..={}, exactly one block rewound whose spends hold the boundary's last leaf; that leaf a lone single-leaf peak with 1-based position == boundary size: {}), committed + reopened / discarded",
+		T::NAME, st.sibling_histories, max_l, st.sibling_left_protected, st.sibling_right_protected,
+		st.sibling_lone_root_next_to_protected, st.last_leaf_histories, max_last, st.last_leaf_is_lone_peak
+	));
+	print_deep_stats(out, &format!("siblings-{}", T::NAME), &st);
+}
+
 /// `store bulk`: large un-synced batches after a rewind, rolled back
 fn run_bulk<T: Kind>(out: &mut Out, rng: &mut Rng, thorough: bool) {
 	let work = std::env::var("VERIF_WORK").expect("VERIF_WORK not set");
@@ -3470,6 +3725,11 @@ fn main() {
 		run_cutoff::<Elem>(&mut out, &mut rng, max_l);
 		run_cutoff::<VarElem>(&mut out, &mut rng, max_l);
 	}
+	if mode == "siblings" || mode == "all" {
+		let (max_l, max_last) = if thorough { (24, 64) } else { (12, 40) };
+		run_siblings::<Elem>(&mut out, &mut rng, max_l, max_last);
+		run_siblings::<VarElem>(&mut out, &mut rng, max_l * 2 / 3, max_last / 2);
+	}
 	if mode == "bulk" || mode == "all" {
 		run_bulk::<Elem>(&mut out, &mut rng, thorough);
 		run_bulk::<RpElem>(&mut out, &mut rng, thorough);
@@ -3502,6 +3762,7 @@ fn main() {
 		let (h, u, l) = if thorough { (30, 40, 120) } else { (10, 24, 80) };
 		run_varopen(&mut out, &mut rng, h, u, l);
 		varopen_same_sum(&mut out, &mut rng, if thorough { 200 } else { 60 });
+		oversize_probe(&mut out, &mut rng);
 	}
 	if mode == "rough" || mode == "all" {
 		let (h, n) = if thorough { (20, 600) } else { (6, 400) };
